@@ -239,7 +239,7 @@ func checkC07Precedence(p *Prog, r *Report, ru *Rule) {
 	r.Saw("func " + fnName(fn))
 	c2 := "c2"
 	if pk := p.Pkg(hsrvPkg); nil != pk {
-		if c, ok := pk.Types.Scope().Lookup("C2Param").(*types.Const); ok {
+		if c, ok := lookupObj(pk, "C2Param").(*types.Const); ok {
 			c2 = strings.Trim(c.Val().ExactString(), `"`)
 		}
 	}
